@@ -117,7 +117,7 @@ class Effects:
             pl = st["place"]
             if not pl["p"]:
                 continue
-            e = sy.place(pl)
+            e = sy.dest(pl)
             chain, root = field_chain(e)
             if chain and not self._is_fresh_local(b, root):
                 self._record(eff, b, chain, pl["ty"], "assign", bi)
@@ -198,7 +198,7 @@ class Effects:
             sy = self.ctx.sym(b)
             for bi, si, st in b.iter_stmts():
                 if st["k"] == "assign" and st["place"]["p"] and not b.blocks[bi]["cleanup"]:
-                    r = self._param_root(b, sy.place(st["place"]))
+                    r = self._param_root(b, sy.dest(st["place"]))
                     if r is not None:
                         pw[b.id].add(r)
             for bi, t in b.calls():
